@@ -155,7 +155,12 @@ def run(ctx: Ctx) -> Result:
         for _ in range(1500 if ctx.thorough else 250):
             res.count('random')
             yield gen_history(ctx.rng, singleton_phens(ctx.rng), ctx.rng.choice((0, 8, 1000)), ctx.rng.randint(6, 40), p_remote=0.5)
-    run_cases(ctx, cases(), res, per_case=per_case, use_ref=False)
+    if ctx.replay is None or not ctx.replay['replay'].get('race'):
+        run_cases(ctx, cases(), res, per_case=per_case, use_ref=False)
+    # "at every moment, under every interleaving": the engine thread's update() against the distributed thread's
+    # on_distributed_update() on one decider, the second started at every lock boundary of the first
+    from harness import decider_race
+    decider_race.attach(ctx, res)
     res.exhaustive = ctx.thorough
     return res
 
